@@ -55,6 +55,16 @@ def sid_to_dict(sid: str, _type: Optional[str] = None) -> Tuple[str, dict] | Tup
     else:
         template, data = r.resolve_first(sid)
 
+    # The resolver's end anchor ("$") also matches before a trailing newline.
+    # A template only applies if its fields render back to the complete string.
+    if data and sip.join(data.values()) != sid:
+        template, data = None, None
+        if not _type:
+            for name, found in r.resolve_all(sid).items():
+                if sip.join(found.values()) == sid:
+                    template, data = name, found
+                    break
+
     if not data:
         return None, None
 
